@@ -37,6 +37,17 @@ def check(rep, tier, seed):
             cases.append("case %d %d %d %d %d %s\n" % (k, seekable, rng.choice([0, 0, 1, 7, 255]), rng.below(1 << 30), nops, d.hex() or "-"))
             metas.append({"case": k, "kind": kind, "bytes": len(d), "seekable": seekable, "links_before_damage": len(fi["Ns"])})
             k += 1
+    # corpus of earlier failures (one case per file, kept verbatim): appended with fresh case numbers
+    cdir = os.path.join(common.VERIF, "corpus", "C03")
+    ncorpus = 0
+    for fn in sorted(os.listdir(cdir)) if os.path.isdir(cdir) else []:
+        for line in open(os.path.join(cdir, fn)):
+            t = line.split()
+            if len(t) == 7 and t[0] == "case":
+                cases.append("case %d %s\n" % (k, " ".join(t[2:])))
+                metas.append({"case": k, "kind": "mutated", "bytes": len(t[6]) // 2, "seekable": int(t[2]), "corpus": fn})
+                k += 1
+                ncorpus += 1
     shards = 16
 
     def one(i):
@@ -80,6 +91,7 @@ def check(rep, tier, seed):
                             "missing EOS, damaged header and audio packets inside valid pages), seekable and streaming, short reads; then a random sequence "
                             "over the WHOLE public API (reads, all seek and lapped-seek variants, tells, totals, info/comment, bitrate, half-rate, cross-lap "
                             "between two handles); every case non-trivial, distinct by content")
+    dist["corpus_cases"] = ncorpus
     rep.coverage["distribution"] = dist
     if bad_prop:
         rep.violation("property fails on the implementation", {"failures": bad_prop[:10], "seed": seed})
